@@ -242,7 +242,17 @@ func handleLeafValue(nodemap map[string]interface{}, value *configapi.TypedValue
 	case configapi.ValueType_LEAFLIST_BOOL:
 		(nodemap)[pathelems[0]] = (*configapi.TypedLeafListBool)(value).List()
 	case configapi.ValueType_LEAFLIST_DECIMAL:
-		(nodemap)[pathelems[0]] = (*configapi.TypedLeafListDecimal)(value).ListFloat()
+		if jsonRFC7951 {
+			// as for a single decimal64: a string, which keeps all the digits
+			digits, precision := (*configapi.TypedLeafListDecimal)(value).List()
+			asStrList := make([]string, 0, len(digits))
+			for _, d := range digits {
+				asStrList = append(asStrList, (*configapi.TypedDecimal)(configapi.NewTypedValueDecimal(d, precision)).String())
+			}
+			(nodemap)[pathelems[0]] = asStrList
+		} else {
+			(nodemap)[pathelems[0]] = (*configapi.TypedLeafListDecimal)(value).ListFloat()
+		}
 	case configapi.ValueType_LEAFLIST_FLOAT:
 		(nodemap)[pathelems[0]] = (*configapi.TypedLeafListFloat)(value).List()
 	case configapi.ValueType_LEAFLIST_BYTES:
